@@ -17,6 +17,7 @@ package tagexpr
 import (
 	"context"
 	"math"
+	"reflect"
 )
 
 // --------------------------- Operator ---------------------------
@@ -107,6 +108,15 @@ func (re *remainderExprNode) Run(ctx context.Context, currField string, tagExpr 
 	return float64(int64(v0) % int64(v1))
 }
 
+// equalValues is a == b; values of a type that Go cannot compare with == (slices, maps,
+// values of fields of those kinds) are compared by content instead of panicking.
+func equalValues(a, b interface{}) bool {
+	if t := reflect.TypeOf(a); t != nil && !t.Comparable() {
+		return reflect.DeepEqual(a, b)
+	}
+	return a == b
+}
+
 type equalExprNode struct{ exprBackground }
 
 func (ee *equalExprNode) String() string {
@@ -118,7 +128,7 @@ func newEqualExprNode() ExprNode { return &equalExprNode{} }
 func (ee *equalExprNode) Run(ctx context.Context, currField string, tagExpr *TagExpr) interface{} {
 	v0 := ee.leftOperand.Run(ctx, currField, tagExpr)
 	v1 := ee.rightOperand.Run(ctx, currField, tagExpr)
-	if v0 == v1 {
+	if equalValues(v0, v1) {
 		return true
 	}
 	if s0, ok := toFloat64(v0, false); ok {
